@@ -12,7 +12,7 @@ def candidates(line):
     o = parts[2].split()
     ops, j = [], 0
     while j < len(o):
-        w = {"0": 2, "1": 3, "2": 4, "3": 2}.get(o[j], 1)
+        w = {"0": 2, "1": 3, "2": 4, "3": 2, "6": 2}.get(o[j], 1)
         ops.append(o[j:j + w]); j += w
     for k in range(1, len(ops)):
         yield parts[0] + ":" + parts[1] + ": " + " ".join(" ".join(x) for x in ops[:k]) + " :"
@@ -69,7 +69,20 @@ def check(tier):
     elif diffs:
         m = shrink(harness, driver, diffs[0], lambda x: x["impl"] != x["model"])
         path = vlib.write_replay(PROP, {"property": PROP, "broken": "correspondence Model/Restart.v <-> runtime/restart.rs, retain_store.rs", "case_line": m["line"], "impl": m["impl"], "model": m["model"], "format": fmt})
-        violations.append((path, "model and implementation disagree; the judge accepts the observed history", True))
+        # a disagreement confined to the event-task counter is a concrete failure of "a restarted runtime behaves as a fresh one"
+        it, mt = m["impl"].split(), m["model"].split()
+        cfg = [int(x) for x in m["line"].split(":")[1].split()]
+        ng = cfg[0]; k = 1 + 2 * ng; npg = cfg[k]; k += 1; nv = nb = 0
+        for _ in range(npg):
+            n = cfg[k]; k += 1
+            for _ in range(n):
+                nv += 1; nb += cfg[k + 2]; k += 3
+        width = ng + nv + nb + 3
+        first = next((i for i in range(min(len(it), len(mt))) if it[i] != mt[i]), None)
+        if first is not None and width > 0 and first % width == width - 1:
+            violations.append((path, "the event (SINGLE) task ran %s times after operation %d where the model of a restarted = freshly built runtime runs it %s times (task state must be re-created by a restart)" % (it[first], first // width + 1, mt[first]), False))
+        else:
+            violations.append((path, "model and implementation disagree; the judge accepts the observed history", True))
     if errors:
         path = vlib.write_replay(PROP, {"property": PROP, "what": "harness error", "detail": errors[0]["error"][:3000]})
         violations.append((path, "implementation failed on a generated history: " + errors[0]["error"][:200], False))
